@@ -404,6 +404,79 @@ func runNILLINKDECODE(c *Ctx) {
 			}
 		}
 	}
+	// the decoded string handed back by an element decoder (a closure given to a shared slice-decoding
+	// loop): `return string(body), nil` — the body must be known non-empty where the decoder is called
+	for _, fn := range P.Funcs {
+		if !set[fn] {
+			continue
+		}
+		for _, r := range ir.Returns(fn) {
+			for _, res := range r.Results {
+				mi, ok := res.(*ssa.MakeInterface)
+				if !ok || !isStringType(mi.X.Type()) {
+					continue
+				}
+				if it, ok := mi.Type().Underlying().(*types.Interface); !ok || it.NumMethods() != 0 {
+					continue
+				}
+				if _, isConst := mi.X.(*ssa.Const); isConst {
+					continue
+				}
+				n++
+				pos := P.InstrPos(r)
+				what := "decoded string returned as an element by " + ir.FuncName(fn)
+				if nonEmptyStringFact(r.Block(), mi.X) {
+					c.OK(pos, what, "known non-empty on this path", false)
+					continue
+				}
+				var prm *ssa.Parameter
+				if cv, ok := mi.X.(*ssa.Convert); ok {
+					prm, _ = cv.X.(*ssa.Parameter)
+				}
+				idx := -1
+				for i, q := range fn.Params {
+					if q == prm && prm != nil {
+						idx = i
+					}
+				}
+				sites, good := 0, true
+				if idx >= 0 {
+					for _, g := range P.Funcs {
+						for _, ci := range CallsOf(g) {
+							is := false
+							for _, callee := range c.Facts.Callees(ci) {
+								if callee == fn {
+									is = true
+								}
+							}
+							args := ci.Common().Args
+							ai := idx - (len(fn.Params) - len(args))
+							if !is || ai < 0 || ai >= len(args) {
+								continue
+							}
+							sites++
+							a := args[ai]
+							okSite := ir.NonNilAt(ci.Block(), ir.Sym(a))
+							for _, f := range ir.FactsAt(ci.Block()) {
+								if ss, ok := ir.LenAtLeast1(f); ok && ss == ir.Sym(a) {
+									okSite = true
+								}
+							}
+							if !okSite {
+								good = false
+							}
+						}
+					}
+				}
+				if sites > 0 && good {
+					c.OK(pos, what, fmt.Sprintf("the body is known non-empty at all %d call sites of the element decoder (an empty name is left as a nil link)", sites), false)
+				} else {
+					c.Violation(fn, pos, "empty link name not decoded to nil",
+						"a nil child link is written as the empty string; returning that string as an element makes traversal try to load a node named \"\" (the reloaded tree fails or differs)")
+				}
+			}
+		}
+	}
 	if n == 0 {
 		c.Undecided(nil, "-", "no link decoding found", "the load path no longer stores decoded strings into link slices in a recognisable form")
 	}
@@ -428,7 +501,7 @@ func runCURSORCLONE(c *Ctx) {
 				continue
 			}
 			if ex, ok := st.Val.(*ssa.Extract); ok && ex.Index == 0 {
-				if call, ok := ex.Tuple.(*ssa.Call); ok && call.Call.StaticCallee() == clone {
+				if call, ok := ex.Tuple.(*ssa.Call); ok && ir.Callee(call.Call) == clone {
 					nm, _ = st.Addr.(*ssa.Alloc)
 				}
 			}
@@ -439,7 +512,7 @@ func runCURSORCLONE(c *Ctx) {
 		return
 	}
 	for _, ci := range CallsOf(fn) {
-		if ci.Common().StaticCallee() != load {
+		if ir.Callee(ci.Common()) != load {
 			continue
 		}
 		args := ci.Common().Args
@@ -889,27 +962,14 @@ func runFINDOPTS(c *Ctx) {
 				case "targetLayer":
 					n++
 					what := "findOptions.targetLayer in " + ir.FuncName(fn)
-					call, isCall := st.Val.(*ssa.Call)
-					if !isCall || !isMinFunc(call.Call.StaticCallee()) {
+					switch minLayerHeight(c, st.Val, 0) {
+					case 0:
 						c.Violation(fn, pos, "targetLayer is not min(key layer, height)",
 							"a search must stop at the key's layer but never above the root: with targetLayer above the height the descent never reaches its target (lookups miss present keys, the height counter wraps)")
-						continue
-					}
-					var layerOK, heightOK bool
-					for _, a := range call.Call.Args {
-						if mastFieldLoad(a, "height") {
-							heightOK = true
-						}
-						if ex, ok := ir.Origin(a).(*ssa.Extract); ok && ex.Index == 0 {
-							if lc, ok := ex.Tuple.(*ssa.Call); ok && strings.HasPrefix(c.Facts.External(lc), "callback:keyLayer") {
-								layerOK = true
-							}
-						}
-					}
-					if layerOK && heightOK {
-						c.OK(pos, what, "min(keyLayer(key, bf), m.height)", false)
-					} else {
+					case 1:
 						c.Violation(fn, pos, "targetLayer not computed from keyLayer and height", "the two operands of the minimum must be the key's layer and the tree's height")
+					default:
+						c.OK(pos, what, "min(keyLayer(key, bf), m.height)", false)
 					}
 				case "currentHeight":
 					n++
@@ -925,6 +985,64 @@ func runFINDOPTS(c *Ctx) {
 	if n == 0 {
 		c.AnchorMissing("findOptions literals")
 	}
+}
+
+// minLayerHeight: 2 = v is min(keyLayer(…), Mast.height) (directly, or the value every success return of a
+// helper yields), 1 = a minimum of something else, 0 = not a minimum at all.
+func minLayerHeight(c *Ctx, v ssa.Value, depth int) int {
+	if depth > 2 {
+		return 0
+	}
+	v = ir.Origin(v)
+	var call *ssa.Call
+	switch x := v.(type) {
+	case *ssa.Call:
+		call = x
+	case *ssa.Extract:
+		if x.Index != 0 {
+			return 0
+		}
+		call, _ = x.Tuple.(*ssa.Call)
+	}
+	if call == nil {
+		return 0
+	}
+	sc := ir.Callee(call.Call)
+	if isMinFunc(sc) {
+		var layerOK, heightOK bool
+		for _, a := range call.Call.Args {
+			if mastFieldLoad(a, "height") {
+				heightOK = true
+			}
+			if ex, ok := ir.Origin(a).(*ssa.Extract); ok && ex.Index == 0 {
+				if lc, ok := ex.Tuple.(*ssa.Call); ok && strings.HasPrefix(c.Facts.External(lc), "callback:keyLayer") {
+					layerOK = true
+				}
+			}
+		}
+		if layerOK && heightOK {
+			return 2
+		}
+		return 1
+	}
+	if sc == nil || sc.Blocks == nil || !isOwn(c.P, sc) {
+		return 0
+	}
+	ei := ir.ErrorResultIndex(sc.Signature)
+	best, n := 2, 0
+	for _, r := range ir.Returns(sc) {
+		if ei >= 0 && !ir.IsNilConst(r.Results[ei]) {
+			continue // failing return: the caller does not use the layer
+		}
+		n++
+		if k := minLayerHeight(c, r.Results[0], depth+1); k < best {
+			best = k
+		}
+	}
+	if n == 0 {
+		return 0
+	}
+	return best
 }
 
 // ---- DIRTYNEW -----------------------------------------------------------------------------------------
@@ -944,7 +1062,7 @@ func valueHasDirtyTrue(v ssa.Value, depth int) bool {
 		return isC && b
 	}
 	if call, ok := v.(*ssa.Call); ok {
-		f := call.Call.StaticCallee()
+		f := ir.Callee(call.Call)
 		if f == nil || f.Blocks == nil {
 			return false
 		}
@@ -1015,7 +1133,7 @@ func runDIRTYNEW(c *Ctx) {
 			ok = ir.MustPass(cs, dirtyTrueStoreOn(v))
 			why = "dirty=true stored on every path before it is linked"
 		case *ssa.Call:
-			if f := v.Call.StaticCallee(); f != nil && f.Blocks != nil {
+			if f := ir.Callee(v.Call); f != nil && f.Blocks != nil {
 				ok = returnsDirty(f, map[*ssa.Function]bool{})
 				why = "result of " + f.Name() + ", which marks every node it returns dirty"
 			}
@@ -1205,6 +1323,10 @@ func runGROWLOOP(c *Ctx) {
 // ---- NILSLICE ------------------------------------------------------------------------------------------------
 
 func nonNilBacked(v ssa.Value, ownBase ssa.Value, ownField string, d int) (bool, string) {
+	return nonNilBackedE(v, ownBase, ownField, d, nil)
+}
+
+func nonNilBackedE(v ssa.Value, ownBase ssa.Value, ownField string, d int, env *penv) (bool, string) {
 	if d > 8 {
 		return false, "too deep"
 	}
@@ -1214,19 +1336,42 @@ func nonNilBacked(v ssa.Value, ownBase ssa.Value, ownField string, d int) (bool,
 	case *ssa.Const:
 		return false, "nil"
 	case *ssa.ChangeType:
-		return nonNilBacked(x.X, ownBase, ownField, d+1)
+		return nonNilBackedE(x.X, ownBase, ownField, d+1, env)
 	case *ssa.Convert:
-		return nonNilBacked(x.X, ownBase, ownField, d+1)
+		return nonNilBackedE(x.X, ownBase, ownField, d+1, env)
 	case *ssa.Slice:
 		if _, ok := x.X.(*ssa.Alloc); ok {
 			return true, "literal"
 		}
-		return nonNilBacked(x.X, ownBase, ownField, d+1)
+		return nonNilBackedE(x.X, ownBase, ownField, d+1, env)
 	case *ssa.Call:
 		if b, ok := x.Call.Value.(*ssa.Builtin); ok && b.Name() == "append" {
-			return nonNilBacked(x.Call.Args[0], ownBase, ownField, d+1)
+			return nonNilBackedE(x.Call.Args[0], ownBase, ownField, d+1, env)
+		}
+		if rets, ne, callee := helperReturns(x, env); rets != nil && d < 6 {
+			for _, rv := range rets {
+				if ok, why := nonNilBackedE(rv, ownBase, ownField, d+2, ne); !ok {
+					return false, why + " (returned by " + callee.Name() + ")"
+				}
+			}
+			return true, "result of " + callee.Name()
 		}
 		return false, "call result"
+	case *ssa.Extract:
+		if rets, ne, callee := helperReturns(x, env); rets != nil && d < 6 {
+			for _, rv := range rets {
+				if ok, why := nonNilBackedE(rv, ownBase, ownField, d+2, ne); !ok {
+					return false, why + " (returned by " + callee.Name() + ")"
+				}
+			}
+			return true, "result of " + callee.Name()
+		}
+		return false, "call result"
+	case *ssa.Parameter:
+		if a, up, ok := env.lookup(x); ok {
+			return nonNilBackedE(a, ownBase, ownField, d+1, up)
+		}
+		return false, "a parameter"
 	case *ssa.UnOp:
 		if x.Op == token.MUL {
 			if _, f, _, ok := nodeBaseOfAddr(x.X); ok && (f == "Key" || f == "Value" || f == "Link") {
@@ -1236,7 +1381,7 @@ func nonNilBacked(v ssa.Value, ownBase ssa.Value, ownField string, d int) (bool,
 		return false, "loaded slice"
 	case *ssa.Phi:
 		for _, e := range x.Edges {
-			if ok, why := nonNilBacked(e, ownBase, ownField, d+1); !ok {
+			if ok, why := nonNilBackedE(e, ownBase, ownField, d+1, env); !ok {
 				return false, why
 			}
 		}
@@ -1506,7 +1651,7 @@ func runPOWLOOP(c *Ctx) {
 // allocatesDecodeTarget: the call is reflect.New, or a repository helper whose
 // result is built from a reflect.New executed inside it (one allocation per call).
 func allocatesDecodeTarget(call *ssa.Call, depth int) bool {
-	sc := call.Call.StaticCallee()
+	sc := ir.Callee(call.Call)
 	if sc == nil {
 		return false
 	}
